@@ -2,6 +2,7 @@
 //
 //   obj sphere <n> | quad <n> <A n*n> <b n> | rosen <n> | plateau <n>      (plateau = floor(4*|x|^2)/4: ties)
 //   box <l n> <u n>   |   softbox <l n> <u n>   (feasibility predicate + closestFeasible without the constraint feature flag)
+//   scale <c>         the objective is multiplied by c (a power of two: exact, order preserving) -- value classes far from 1
 //   opt <kind> [<lambda> <mu> <recomb 0|1|2> <sigma>]   kind = cma | cmsa | ecma | vdcma | lmcma | cem | simplex
 //        lambda 0 = the class' default population sizes; sigma 0 = default initial step size (cem: variance)
 //        followed by any number of key=value options -- the configuration axes of the public interface:
@@ -23,7 +24,7 @@
 //                          var:<x> (cem setVariance) | pop:<l>:<m> (cem populationSize/selectionSize; vdcma lambda() = l)
 //   run <seed> <steps> <target> <x0 n>   init + steps, 8 runs: fresh, fresh again, RE-INITIALISED used object, an object
 //        that was used on a DIFFERENT problem (other dimension, start, seed) and then initialised, 3 exact
-//        rescalings of f, (all with the same seed); prints the final solution, a digest and the oracle verdicts
+//        rescalings of f and f scaled by 2^340 (all with the same seed); prints the final solution, a digest and the oracle verdicts
 //   coeffs <kind> <n> <lambda> <mu> <recomb> [key=value ...]   strategy constants of the initialised object (compared bit for bit with the
 //        formulas regenerated from the C++, Gen/CMAParams.lean) + admissibility oracle
 //   cmatrace <seed> <steps> <x0 n>   CMA run printing, per step, everything updatePopulation consumed and produced
@@ -118,9 +119,10 @@ struct Obj: public SingleObjectiveFunction{
 	bool soft;  // "soft box": isFeasible/closestFeasible are overridden but the function does not declare
 	            // IS_CONSTRAINED_FEATURE (CMA, CMSA, ElitistCMA refuse declared constraints in checkFeatures although
 	            // their PenalizingEvaluator handles infeasible points) -- this reaches the closest-feasible clause of C11
-	int phi;   // 0 identity, 1: 2v, 2: v/8, 3: v>=0 ? 4v : 2v   (all exact and strictly increasing)
+	int phi;   // 0 identity, 1: 2v, 2: v/8, 3: v>=0 ? 4v : 2v, 4: 2^340 v (values beyond 1e100)   (all exact and strictly increasing)
 	RealVector start;   // returned by proposeStartingPoint (init(f) overload)
-	Obj(): kind(0), n(0), boxed(false), soft(false), phi(0){ m_features |= HAS_VALUE; m_constraintHandler = nullptr; }
+	double scale;       // exact positive factor on the objective value
+	Obj(): kind(0), n(0), boxed(false), soft(false), phi(0), scale(1.0){ m_features |= HAS_VALUE; m_constraintHandler = nullptr; }
 	void proposes(RealVector const& x0){ start = x0; m_features |= CAN_PROPOSE_STARTING_POINT; }
 	RealVector proposeStartingPoint() const{ return start; }
 	std::string name() const{ return "verif-objective"; }
@@ -130,7 +132,8 @@ struct Obj: public SingleObjectiveFunction{
 	bool isFeasible(RealVector const& x) const{ return soft ? handler.isFeasible(x) : SingleObjectiveFunction::isFeasible(x); }
 	void closestFeasible(RealVector& x) const{ if(soft) handler.closestFeasible(x); else SingleObjectiveFunction::closestFeasible(x); }
 	// plain scalar loops: the Lean driver evaluates the same expressions at Float (simplexrun)
-	double raw(RealVector const& x) const{
+	double raw(RealVector const& x) const{ return scale * raw1(x); }
+	double raw1(RealVector const& x) const{
 		double v = 0.0;
 		if(kind == 2 || kind == 3){
 			for(std::size_t i = 0; i != n; ++i) v = v + x(i) * x(i);
@@ -153,7 +156,7 @@ struct Obj: public SingleObjectiveFunction{
 	double eval(RealVector const& x) const{
 		++m_evaluationCounter;
 		double v = raw(x);
-		switch(phi){ case 1: return 2.0 * v; case 2: return v * 0.125; case 3: return v >= 0 ? 4.0 * v : 2.0 * v; default: return v; }
+		switch(phi){ case 1: return 2.0 * v; case 2: return v * 0.125; case 3: return v >= 0 ? 4.0 * v : 2.0 * v; case 4: return std::ldexp(v, 340); default: return v; }
 	}
 	// the property's reference value: objective at the closest feasible point
 	double reference(RealVector const& p) const{
@@ -465,6 +468,7 @@ static Trace runOnce(Config const& c, Holder& h, Obj& f, int phi, unsigned seed,
 		t.pts.push_back(p); t.vals.push_back(v);
 		bool finite = std::isfinite(v) && finiteVec(p);
 		if(!finite) fail(t, "non-finite");
+		if(p.size() != f.n){ fail(t, "reported-point-has-wrong-dimension"); finite = false; }
 		if(phi == 0 && finite){
 			double ref = f.reference(p);
 			if(!sameBits(ref, v)) fail(t, "value-not-f-of-closest-feasible-point");
@@ -689,6 +693,10 @@ int main(){
 				for(std::size_t k = 0; k != n; ++k){ l(k) = bits2d(t[1+k]); u(k) = bits2d(t[1+n+k]); }
 				if(t[0] == "box") f->setBox(l, u); else f->setSoftBox(l, u);
 				out << "ok";
+			}else if(t[0] == "scale"){
+				f->scale = bits2d(t.at(1));
+				if(!(f->scale > 0) || !std::isfinite(f->scale)) throw std::runtime_error("bad-op");
+				out << "ok";
 			}else if(t[0] == "opt"){
 				cfg.kind = t.at(1); cfg.p.clear(); cfg.o.clear();
 				for(std::size_t k = 2; k < t.size(); ++k){
@@ -718,12 +726,16 @@ int main(){
 				if(digest(a) != digest(b)) out << " !oracle same-seed-different-run" << (h1.priv ? ":private-generator" : "");
 				if(digest(a) != digest(r)) out << " !oracle reinitialised-object-different-run";
 				if(digest(a) != digest(u)) out << " !oracle reused-object-different-run";
-				for(int phi = 1; phi <= 3; ++phi){
+				for(int phi = 1; phi <= 4; ++phi){
 					// ElitistCMA with a feasibility box ranks by f + penalty, which is not order-equivalent to phi(f) + penalty
 					if(cfg.kind == "ecma" && f->soft) break;
 					Holder h3(cfg);
 					Trace c = runOnce(cfg, h3, *f, phi, seed, 4 + phi, steps, x0);
 					bool same = c.pts.size() == a.pts.size();
+					// 2^340 v is exact as long as it does not overflow
+					bool representable = true;
+					for(std::size_t s = 0; phi == 4 && s != a.vals.size(); ++s) representable = representable && std::fabs(a.vals[s]) < 1e150;
+					if(!representable) continue;
 					// the rescalings are exact (and hence exactly order preserving) only away from underflow:
 					// the comparison stops once a reported value drops below 1e-200 in modulus
 					for(std::size_t s = 0; same && s != a.pts.size(); ++s){
@@ -731,7 +743,7 @@ int main(){
 						same = sameVec(a.pts[s], c.pts[s]) && sameBits(a.sig[s], c.sig[s]);
 					}
 					if(!c.bad.empty() && a.bad.empty()) out << " !oracle " << c.bad << " run=rescaled" << phi;
-					if(!same){ out << " !oracle not-rank-invariant phi=" << phi; break; }
+					if(!same){ out << " !oracle not-rank-invariant" << (phi == 4 ? "-at-huge-values" : "") << " phi=" << phi; break; }
 				}
 				if(std::isfinite(target) && !(a.vals.back() <= target)) out << " !oracle not-converged " << a.vals.back();
 			}else if(t[0] == "coeffs"){
